@@ -172,11 +172,16 @@ def body_gap(case):
     return dict(violations=v, labels=labs, nontrivial=True, oracle_evals=1, sample=dict(runlevel.small(scn2), c_x0=c0, c_snapped=c1))
 
 
+ADV_EXCLUDE = ()
+
+
 def plan(tier):
-    return [("runs", 16), ("snapgap", 8)]
+    return [("runs", 16), ("snapgap", 8), ("advopts", 16)]
 
 
 def run_part(res, part, tier, seed, shard, nshards):
+    if part == "advopts":
+        return runlevel.adv_sweep(res, PROFILE, tier, seed, shard, nshards, body, exclude=ADV_EXCLUDE)
     if part == "snapgap":
         return runlevel.sweep(res, None, N_GAP[tier], seed + 53, shard, nshards, body_gap, strategy=gap_cases())
     runlevel.sweep(res, PROFILE if tier == "quick" else dict(PROFILE, maxD=5, extra_budget=(5, 200)), N[tier], seed, shard, nshards, body)
